@@ -88,10 +88,33 @@ def deformations(cls: str) -> List[Tuple[Optional[str], Dict]]:
     return out
 
 
-def build(cls: str, size: Tuple[int, ...], deform: Optional[Tuple[str, Dict]] = None):
+def warm(code):
+    """touch every lazily cached attribute of a code object (what a user may have looked at
+    before calling deform on the same object)"""
+    code.n, code.k, code.d
+    code.stabilizer_matrix, code.logicals_x, code.logicals_z
+    code.x_indices, code.z_indices
+    if code.is_css:
+        code.Hx, code.Hz
+    code.qubit_index, code.stabilizer_index
+    if code.n_stabilizers:
+        import numpy as np
+        code.measure_syndrome(np.zeros(2 * code.n, dtype='uint8'))
+    return code
+
+
+def build(cls: str, size: Tuple[int, ...], deform: Optional[Tuple[str, Dict]] = None, reuse: bool = False):
+    """reuse=True: the object is fully used (all caches filled), deformed with another offered
+    deformation first when there is one, used again, and only then deformed as requested"""
     import panqec.codes as C
     code = getattr(C, cls)(*size)
     if deform is not None and deform[0] is not None:
+        if reuse:
+            warm(code)
+            others = [d for d in deformations(cls)[1:] if d != (deform[0], deform[1])]
+            if others:
+                code.deform(others[0][0], **others[0][1])
+                warm(code)
         code.deform(deform[0], **deform[1])
     return code
 
